@@ -535,9 +535,65 @@ func TestVerifC02(t *testing.T) {
 		if e != "" {
 			t.Fatalf("case %d: cannot build the archive: %s", ci+1, e)
 		}
-		for si, sub := range rpcSubsets(len(a.Arch)) {
+		// every second archive is served by ONE long-lived MultiEpoch that walks through the loaded-epoch combinations
+		// (epochs added with AddEpoch or ReplaceOrAddEpoch, removed with RemoveEpoch, queries in every state): what a
+		// request is answered with may depend on the loaded set only, not on how the server got there
+		live := NewMultiEpoch(&Options{EpochSearchConcurrency: concs[ci%len(concs)]})
+		cur := map[int]bool{}
+		subsets := rpcSubsets(len(a.Arch))
+		if ci%2 == 0 {
+			// the walk starts with a growing chain {0}, {0,1}, {0,1,2}, ... (pure additions after queries), then visits the rest
+			var chain, rest [][]int
+			for n := 1; n <= len(a.Arch); n++ {
+				var s []int
+				for i := 0; i < n; i++ {
+					s = append(s, i)
+				}
+				chain = append(chain, s)
+			}
+			for _, s := range subsets {
+				isChain := true
+				for k, v := range s {
+					isChain = isChain && v == k
+				}
+				if !isChain {
+					rest = append(rest, s)
+				}
+			}
+			subsets = append(chain, rest...)
+		}
+		adds := 0
+		for si, sub := range subsets {
 			conc := concs[(ci+si)%len(concs)]
-			multi, nums := w.multi(sub, conc)
+			var multi *MultiEpoch
+			var nums []uint64
+			if ci%2 == 0 {
+				want := map[int]bool{}
+				for _, i := range sub {
+					want[i] = true
+				}
+				for i := range cur {
+					if !want[i] {
+						live.RemoveEpoch(w.eps[i].built.Spec.Epoch)
+						delete(cur, i)
+					}
+				}
+				for _, i := range sub {
+					if !cur[i] {
+						if adds == 0 || (si >= len(a.Arch) && adds%2 == 0) {
+							live.AddEpoch(w.eps[i].built.Spec.Epoch, w.eps[i].epoch)
+						} else {
+							live.ReplaceOrAddEpoch(w.eps[i].built.Spec.Epoch, w.eps[i].epoch)
+						}
+						adds++
+						cur[i] = true
+					}
+					nums = append(nums, w.eps[i].built.Spec.Epoch)
+				}
+				multi, conc = live, concs[ci%len(concs)]
+			} else {
+				multi, nums = w.multi(sub, conc)
+			}
 			handler := newMultiEpochHandler(multi, nil)
 			h := func(body string) (int, string, any) { return vCall(handler, body) }
 			o := rpcObs{Kind: "rpc", Case: ci + 1, Arch: a.Arch, Loaded: nums, Conc: conc}
